@@ -9,9 +9,10 @@ import Driver.Bind
 import Driver.Schema
 import Driver.StreamBytes
 import Driver.GoBind
+import Driver.TypedAsm
 open Ipld.Driver
 
-def handlers : List (List String → Option String) := [cborHandler, asmHandler, linkHandler, jsonHandler, walkHandler, storeHandler, xformHandler, bindHandler, schemaHandler, streamHandler, gobindHandler]
+def handlers : List (List String → Option String) := [cborHandler, asmHandler, linkHandler, jsonHandler, walkHandler, storeHandler, xformHandler, bindHandler, schemaHandler, streamHandler, gobindHandler, tasmHandler]
 
 def dispatch (line : String) : String :=
   let toks := (line.trimAscii.toString.splitOn " ").filter (· ≠ "")
